@@ -1,20 +1,21 @@
 #!/usr/bin/env python3
-"""import_batch2.py <confirm log> <pid>...: import /tmp/seed2_<pid>/out/{1,2,3} as seeded/<pid>-{4,5,6}"""
+"""import_batch2.py <confirm log> <pid>...: import /tmp/seed<B>_<pid>/out/{1,2,3} as seeded/<pid>-{3(B-1)+1..3(B-1)+3}; B = env BATCH (default 2)"""
 import json, os, shutil, sys
 log = sys.argv[1]
+B = int(os.environ.get('BATCH', '2'))
 for w in sys.argv[2:]:
     for k in (1, 2, 3):
-        o = f'/tmp/seed2_{w}/out/{k}'
+        o = f'/tmp/seed{B}_{w}/out/{k}'
         if not os.path.exists(o + '/meta.json'):
             continue
-        res = [l.strip() for l in open(log) if l.startswith(f'RESULT /tmp/seed2_{w} {k} ')]
+        res = [l.strip() for l in open(log) if l.startswith(f'RESULT /tmp/seed{B}_{w} {k} ')]
         if not res or 'CONFIRMED' not in res[0]:
             print('not confirmed:', w, k, res); continue
         meta = json.load(open(o + '/meta.json'))
-        d = f'/verif/seeded/{w}-{k + 3}'
+        d = f'/verif/seeded/{w}-{k + 3 * (B - 1)}'
         os.makedirs(d, exist_ok=True)
         shutil.copy(o + '/patch.diff', d); shutil.copy(o + '/demo.rs', d)
-        meta['confirmed_by_lead'] = res[0]; meta['batch'] = 2
+        meta['confirmed_by_lead'] = res[0]; meta['batch'] = B
         meta['confirm_cmd'] = "tools/confirm_seed.sh <scratch worktree> <k>: demo passes on pristine, fails with patch; cargo test -p honeycomb-core -p honeycomb-kernels passes with patch"
         json.dump(meta, open(d + '/meta.json', 'w'), indent=1)
         print('imported', d)
